@@ -4,6 +4,7 @@
 import HLV.Props.HoldFamily
 import HLV.Logic.SoloAcq
 import HLV.Props.C13
+import HLV.Static.Rules
 namespace HLV
 
 -- @theorem C04_footprint_is_the_leaves_each_once : for every lockable shape (any kinds, sizes, arrangement, nesting) the set of holds its acquisition obtains is a permutation of the declared leaves, each once, mutexes exclusively
@@ -68,5 +69,12 @@ theorem C04_blocking_lock_returns_iff_all_leaves_available_solo (pol : Policy) (
     intro h'; rw [hiff.2 h'] at h; cases h
   obtain ⟨pre, e', h1, h2, _, h4, h5⟩ := hd.acq_stuck m e hw hn (fun p _ => (hq p.1).2) hnall
   exact ⟨pre, e', h1, h2, h4, h5⟩
+
+section
+open HLV.Static HLV.Gen
+set_option maxRecDepth 1000000
+-- @theorem C04_try_functions_reach_no_blocking_operation_in_the_source : (table theorem, regenerated from the source on every run) from no try_* function of the crate is a blocking raw operation reachable in the call graph
+theorem C04_try_functions_reach_no_blocking_operation_in_the_source : c04_tryReachesBlocking = [] := by decide +kernel
+end
 
 end HLV
